@@ -47,6 +47,19 @@ pub struct KeyDesc {
     pub public: String,
 }
 
+/// key id for an explicit `keyid_hash_algorithms` list (None = member absent)
+pub fn reference_key_id_with_list(d: &KeyDesc, list: Option<&[&str]>) -> String {
+    let mut members = vec![
+        ("keytype".to_string(), J::Str(d.keytype.into())),
+        ("scheme".to_string(), J::Str(d.scheme.into())),
+        ("keyval".to_string(), J::Obj(vec![("public".to_string(), J::Str(d.public.clone()))])),
+    ];
+    if let Some(l) = list {
+        members.push(("keyid_hash_algorithms".to_string(), J::Arr(l.iter().map(|x| J::Str(x.to_string())).collect())));
+    }
+    sha256_hex(&olpc(&J::Obj(members)).unwrap())
+}
+
 pub fn ec_point(idx: usize) -> Vec<u8> {
     let rng = ring::rand::SystemRandom::new();
     let kp = ring::signature::EcdsaKeyPair::from_pkcs8(
